@@ -173,6 +173,8 @@ func BuildConfig(p Plan, o Opts) *Config {
 			{Dests: []string{"*.wild.verif.test"}, Protocol: "udp", NextHop: "nh1.verif.test"},
 			{Dests: []string{"*.wtcp.verif.test"}, Protocol: "tcp", NextHop: p.NextHop(2)},
 			{Dests: []string{"tlsx.verif.test", "*.wtls.verif.test"}, Protocol: "tls", NextHop: fmt.Sprintf("%s:5061", p.NextHop(1))},
+			// several wildcards in one pattern
+			{Dests: []string{"*.*.*.multi.verif.test"}, Protocol: "udp", NextHop: fmt.Sprintf("%s:%d", p.NextHop(1), NextHopPortA)},
 		}
 		if s&8 != 0 {
 			svc.Routes = append(svc.Routes, Route{Dests: []string{"default"}, Protocol: "udp", NextHop: fmt.Sprintf("nh3.verif.test:%d", NextHopPortB)})
